@@ -65,6 +65,7 @@ def make_ham(rng, spec):
         kind = spec["kind"]
         if kind == "randmpo":
             ham = U.random_herm_mpo(rng, L, d, int(rng.integers(2, 5)), spec["cplx"])
+            ham *= float(L / max(1e-9, np.abs(np.linalg.eigvalsh(np.asarray(ham.to_dense()))).max()))   # |E| <= L
         elif kind == "spin":
             ham = U.spin_ham(rng, L, (d - 1) / 2, spec["cplx"], shift=2.0 if spec.get("shift") else 0.0)
         elif kind == "lib_rand":
@@ -184,7 +185,7 @@ def run_one(rec, rng, tid, spec):
             fin = {"ev": "final", "tid": tid, "cplx": cplx, "bsz": bsz, "conv": bool(conv),
                    "energy": q7(energy.real), "eim": qabs(energy.imag, 1e-7),
                    "energies": [q7(complex(e).real) for e in dm.energies],
-                   "ema": q7(m.ema), "emd": q7(m.emd), "n7": q7(m.n), "w9": qabs(1 - m.n, 1e-9),
+                   "ema": q7(m.ema), "emd": q7(m.emd), "n7": q7(m.n),
                    "bonds": [int(b) for b in psi.bond_sizes()], "exc": "",
                    "lasttrunc": bool(rec.recs[-1].get("lasttrunc", False)),
                    "capltd": bool(rec.recs[-1].get("capltd", False))}
@@ -206,7 +207,7 @@ def run_one(rec, rng, tid, spec):
         noniso = bool(rec.cur and rec.cur.get("fail_noniso"))
         rec.disarm()
         rec.recs.append({"ev": "final", "tid": tid, "cplx": cplx, "bsz": bsz, "conv": False, "energy": 0, "eim": 0,
-                         "energies": [], "ema": 0, "emd": 0, "n7": 0, "w9": 0, "bonds": [], "lasttrunc": False,
+                         "energies": [], "ema": 0, "emd": 0, "n7": 0, "bonds": [], "lasttrunc": False,
                          "capltd": False, "infid7": 0, "wts": [], "tconj": False, "tconjgs": False,
                          "noniso": noniso, "solverexc": type(ex).__name__ in ("ArpackNoConvergence", "ArpackError"),
                          "exc": type(ex).__name__ + ": " + str(ex)[:120]})
@@ -366,7 +367,7 @@ def run(ctx):
         "open boundaries in the main runs; which='SA'; float64/complex128 tensors",
         "one-site DMRG: non-decreasing bond schedules and p0 within the cap (bond_dims is the size the state is expanded to)",
         "energies are compared at 1e-7 resolution; tolerances are the constants of spec/C10/Trace.cfg",
-        "'untruncated' local update = the state norm stayed 1 within 1e-7 (discarded weight)",
+        "'untruncated' local update = discarded weight of the split <= 1e-8 (singular values of the split tensor recomputed with numpy)",
         "ConvergedExact is asserted when the run converged, the final cap admits every state, the local solver is the exact "
         "dense one and some update of the run optimised over the whole Hilbert space with no truncation since",
     ]
